@@ -336,7 +336,7 @@ def describe_header(case, obs):
 
 
 # ------------------------------------------------------------------ version strings
-VERSIONS = ["0.2.0", "0.2.1", "0.1.0", "0.0.1", "0.3.0", "1.0.0", "1.2.0", "0.10.0", "2.1.5"]
+VERSIONS = ["0.2.0", "0.2.1", "0.2.10", "0.1.0", "0.0.1", "0.3.0", "1.0.0", "1.2.0", "0.10.0", "2.1.5", "0.20.0", "0.21.4", "0.200.1", "0.12.0", "10.2.0", "20.2.0", "0.22.2"]  # incl. versions that merely share a textual prefix with the supported one
 
 
 def gen_versions(rng, tier):
